@@ -1,68 +1,275 @@
 import RTV.Lemmas.IntValue
 import RTV.Model.NumCfg
 import RTV.Model.Spell
-/-! English numerals (`RTV.Num.pieces`) against `getIntValueF` with the regenerated English maps: the finite
-facts (blocks below 1000, the last group, small numbers) by kernel evaluation over `RTV.Gen.NumEn`, and the
-group-by-group composition. The variant of `__get_int_value` is the one in the tree (`fx = true`). -/
+/-! English numerals (`RTV.Num.pieces`) against `getIntValueF` with the regenerated English maps. The finite
+facts concern only *flat* word lists (1..99, cardinal or ordinal, with or without a leading "and") and the round
+words, and are proved by kernel evaluation over `RTV.Gen.NumEn`; everything above 99 is composed with
+`good_step`. The variant of `__get_int_value` is the one in the tree (`fx = true`). -/
 namespace RTV.Num
 open RTV.Py
 
 abbrev enL : LangCfg := en.lang
 abbrev enT : DigitTab := asciiDigits
+abbrev enR : List (Str × Nat) := en.lang.round
 
 def toks (ps : List Piece) : List Str := ps.map (·.1)
 
 theorem toks_append (a b : List Piece) : toks (a ++ b) = toks a ++ toks b := List.map_append
 
-theorem variant_mem (v : Variant) : v ∈ allVariants := by
-  rcases v with ⟨a, b, c⟩
-  cases a <;> cases b <;> cases c <;> decide
+def v0 : Variant := ⟨false, false, false⟩
 
-/-- blocks below 1000 in front of a scale word: value, no end word except `hundred`, not empty -/
-def blockCheck (g : Nat) (v : Variant) : Bool :=
-  let ts := toks (sub1000 v false g)
-  decide (getIntValueF true enT enL 2 ts = .ok g) && !ts.isEmpty &&
-    ts.all fun t => lookup enL.round t == none || lookup enL.round t == some 100
+theorem toks_sub100 (v : Variant) (ord : Bool) (r : Nat) : toks (sub100 v ord r) = toks (sub100 v0 ord r) := by
+  unfold sub100 toks
+  split
+  · rfl
+  · split <;> rfl
 
-theorem blockCheck_all : ((List.range 1000).all fun g => g == 0 || allVariants.all fun v => blockCheck g v) = true := by
+/-- flat list = optional "and" + the words of 1..99 -/
+def flat (ord wa : Bool) (r : Nat) : List Str := (if wa then [w_and] else []) ++ toks (sub100 v0 ord r)
+
+def okNat (r : Except Err Nat) (n : Nat) : Bool :=
+  match r with
+  | .ok x => x == n
+  | .error _ => false
+
+theorem okNat_iff (r : Except Err Nat) (n : Nat) : okNat r n = true ↔ r = .ok n := by
+  cases r <;> simp [okNat]
+
+def flatCheck (r : Nat) : Bool :=
+  [false, true].all fun ord => [false, true].all fun wa =>
+    let ts := flat ord wa r
+    okNat (stackEval enT enL ts) r && ts.all fun t => lookup enR t == none
+
+theorem flatCheck_lo : ((List.range 50).all fun r => r == 0 || flatCheck r) = true := by decide +kernel
+theorem flatCheck_hi : ((List.range 50).all fun r => flatCheck (r + 50)) = true := by decide +kernel
+
+theorem flat_facts (ord wa : Bool) (r : Nat) (h1 : 1 ≤ r) (h2 : r < 100) :
+    stackEval enT enL (flat ord wa r) = .ok r ∧ ∀ t ∈ flat ord wa r, lookup enR t = none := by
+  have key : flatCheck r = true := by
+    rcases Nat.lt_or_ge r 50 with h | h
+    · have := flatCheck_lo
+      rw [List.all_eq_true] at this
+      have := this r (List.mem_range.mpr h)
+      have e : (r == 0) = false := by simp; omega
+      simpa [e] using this
+    · have := flatCheck_hi
+      rw [List.all_eq_true] at this
+      have := this (r - 50) (List.mem_range.mpr (by omega))
+      have e : r - 50 + 50 = r := by omega
+      rwa [e] at this
+  simp only [flatCheck, List.all_cons, List.all_nil, Bool.and_true, Bool.and_eq_true, okNat_iff,
+    List.all_eq_true, beq_iff_eq] at key
+  cases ord <;> cases wa <;> simp_all
+
+/-- the round words the generator uses -/
+theorem round_words :
+    lookup enR w_hundred = some 100 ∧ lookup enR w_hundredth = some 100 ∧
+    lookup enR w_thousand = some 1000 ∧ lookup enR w_thousandth = some 1000 ∧
+    lookup enR w_million = some 1000000 ∧ lookup enR w_millionth = some 1000000 ∧
+    lookup enR w_billion = some 1000000000 ∧ lookup enR w_billionth = some 1000000000 ∧
+    lookup enR w_trillion = some 1000000000000 ∧ lookup enR w_trillionth = some 1000000000000 := by
   decide +kernel
 
-theorem block_facts (v : Variant) (g : Nat) (h1 : 1 ≤ g) (h2 : g < 1000) :
-    getIntValueF true enT enL 2 (toks (sub1000 v false g)) = .ok g ∧ toks (sub1000 v false g) ≠ [] ∧
-      ∀ R, 100 < R → Inert enL.round R (toks (sub1000 v false g)) := by
-  have h := blockCheck_all
-  rw [List.all_eq_true] at h
-  have hg := h g (List.mem_range.mpr h2)
-  have : (g == 0) = false := by simp; omega
-  simp only [this, Bool.false_or, List.all_eq_true] at hg
-  have hv := hg v (variant_mem v)
-  simp only [blockCheck, Bool.and_eq_true, decide_eq_true_eq, Bool.not_eq_true', List.all_eq_true,
-    Bool.or_eq_true, beq_iff_eq] at hv
-  obtain ⟨⟨hval, hne⟩, hin⟩ := hv
-  refine ⟨hval, ?_, ?_⟩
-  · intro e; rw [e] at hne; simp at hne
-  · intro R hR t ht
-    rcases hin t ht with h0 | h100
-    · left; exact h0
-    · right; exact ⟨100, h100, hR⟩
-
-/-- the last group (cardinal or ordinal, with or without the British "and"): a good rest worth `u`, its scan
-ends at most at 100 -/
-def lastCheck (u : Nat) (v : Variant) (ord hh : Bool) : Bool :=
-  let r := toks (lastGroup v ord hh u)
-  decide ((scanR enL.round r 1).2 ≤ 100) &&
-    decide (segGo true (getIntValueF true enT enL 2) enL.round (r.zip (scanR enL.round r 1).1) [] = .ok u)
-
-theorem lastCheck_all : ((List.range 1000).all fun u => allVariants.all fun v =>
-    lastCheck u v false false && lastCheck u v false true && lastCheck u v true false && lastCheck u v true true) = true := by
+theorem zero_word : okNat (stackEval enT enL [wordAt small 0]) 0 = true ∧ lookup enR (wordAt small 0) = none := by
   decide +kernel
 
-/-- numbers below 1000 as a whole (cardinal from 0, ordinal from 1) -/
-def smallCheck (n : Nat) (v : Variant) : Bool :=
-  decide (getIntValueF true enT enL 2 (toks (pieces v false n)) = .ok n) &&
-    (n == 0 || decide (getIntValueF true enT enL 2 (toks (pieces v true n)) = .ok n))
+/-! ### composition -/
 
-theorem smallCheck_all : ((List.range 1000).all fun n => allVariants.all fun v => smallCheck n v) = true := by
-  decide +kernel
+theorem good_nil (rec : List Str → Res) (round : List (Str × Nat)) : Good true rec round [] 0 1 := by
+  simp [Good, scanR, segGo]
+
+/-- a non-empty list without round words is a good rest worth `rec A` -/
+theorem good_flat (rec : List Str → Res) (round : List (Str × Nat)) (A : List Str) (n : Nat)
+    (hA : ∀ t ∈ A, lookup round t = none) (hne : A ≠ []) (hrec : rec A = .ok n) : Good true rec round A n 1 := by
+  have hs := scanR_inert round 1 A (fun t ht => Or.inl (hA t ht))
+  refine ⟨by rw [hs], ?_⟩
+  rw [hs]
+  have := segGo_inert true rec round A [] []
+  simp only [List.append_nil] at this
+  rw [this]
+  have hne' : A.reverse.isEmpty = false := by
+    cases A with
+    | nil => exact absurd rfl hne
+    | cons a as => simp
+  simp [segGo, hne', hrec]
+
+theorem eval_flat (tab : DigitTab) (c : LangCfg) (f : Nat) (T : List Str) (hT : ∀ t ∈ T, lookup c.round t = none) :
+    getIntValueF true tab c (f + 1) T = Res.ofExcept (stackEval tab c T) := by
+  rw [getIntValueF]
+  cases T with
+  | nil => simp [endFlags]
+  | cons t ts =>
+    have hs := scanR_inert c.round 1 (t :: ts) (fun x hx => Or.inl (hT x hx))
+    simp only [endFlags, if_true, hs]
+    simp
+
+theorem eval_of_good (tab : DigitTab) (c : LangCfg) (f : Nat) (T : List Str) (n e : Nat)
+    (hg : Good true (getIntValueF true tab c f) c.round T n e) (hT : T ≠ []) (he : e ≠ 1) :
+    getIntValueF true tab c (f + 1) T = .ok n := by
+  obtain ⟨h1, h2⟩ := hg
+  rw [getIntValueF]
+  cases T with
+  | nil => exact absurd rfl hT
+  | cons t ts =>
+    simp only [endFlags, if_true]
+    have : ((scanR c.round (t :: ts) 1).2 == 1) = false := by simp [h1, he]
+    rw [show scanR c.round (t :: ts) 1 = ((scanR c.round (t :: ts) 1).1, (scanR c.round (t :: ts) 1).2) from rfl]
+    simp only [this, Bool.false_eq_true, if_false]
+    exact h2
+
+theorem flat_unit (h : Nat) (h1 : 1 ≤ h) (h2 : h < 10) : flat false false h = [wordAt small h] := by
+  have : h < 20 := by omega
+  simp [flat, toks, sub100, this, v0]
+
+theorem rec_flat (f : Nat) (ord wa : Bool) (r : Nat) (h1 : 1 ≤ r) (h2 : r < 100) :
+    getIntValueF true enT enL (f + 1) (flat ord wa r) = .ok r := by
+  obtain ⟨hv, hn⟩ := flat_facts ord wa r h1 h2
+  rw [eval_flat enT enL f _ hn, hv]; rfl
+
+theorem flat_ne_nil (ord wa : Bool) (r : Nat) : flat ord wa r ≠ [] := by
+  unfold flat toks sub100
+  cases wa <;> simp
+  split <;> (try split) <;> simp
+
+/-- the words of `u` (1..999), explicitly -/
+theorem toks_sub1000 (v : Variant) (ord : Bool) (u : Nat) (h2 : u < 1000) :
+    toks (sub1000 v ord u) =
+      if u < 100 then flat ord false u
+      else if u % 100 = 0 then [wordAt small (u / 100), if ord then w_hundredth else w_hundred]
+      else wordAt small (u / 100) :: w_hundred :: flat ord v.andHundred (u % 100) := by
+  unfold sub1000
+  split
+  · simp [flat, toks_sub100]
+  · split
+    · rename_i h
+      have : u % 100 = 0 := by simpa using h
+      simp only [this, if_true]
+      cases ord <;> simp [toks]
+    · rename_i h
+      have : ¬ u % 100 = 0 := by simpa using h
+      simp only [this, if_false, toks_append, flat, toks_sub100]
+      cases v.andHundred <;> simp [toks]
+
+/-- the words of `u` (1..999), cardinal or ordinal, optionally after "and" when `u < 100`: a good rest worth `u`
+whose scan ends at 1 (no `hundred`) or 100. -/
+theorem good_sub1000 (f : Nat) (v : Variant) (ord wa : Bool) (u : Nat) (h1 : 1 ≤ u) (h2 : u < 1000)
+    (hwa : wa = true → u < 100) :
+    ∃ e, Good true (getIntValueF true enT enL (f + 1)) enR
+        ((if wa then [w_and] else []) ++ toks (sub1000 v ord u)) u e ∧ e ≤ 100 ∧ (100 ≤ u → e = 100) := by
+  rw [toks_sub1000 v ord u h2]
+  by_cases hu : u < 100
+  · simp only [hu, if_true]
+    have e : (if wa then [w_and] else []) ++ flat ord false u = flat ord wa u := by
+      cases wa <;> simp [flat]
+    rw [e]
+    obtain ⟨_, hn⟩ := flat_facts ord wa u h1 hu
+    exact ⟨1, good_flat _ _ _ _ hn (flat_ne_nil _ _ _) (rec_flat f ord wa u h1 hu), by omega, by omega⟩
+  · have hwf : wa = false := by
+      cases wa
+      · rfl
+      · exact absurd (hwa rfl) hu
+    subst hwf
+    simp only [hu, if_false, Bool.false_eq_true, List.nil_append]
+    have hh1 : 1 ≤ u / 100 := by omega
+    have hh2 : u / 100 < 10 := by omega
+    have hunit := rec_flat f false false (u / 100) hh1 (by omega)
+    rw [flat_unit _ hh1 hh2] at hunit
+    have hunitn := (flat_facts false false (u / 100) hh1 (by omega)).2
+    rw [flat_unit _ hh1 hh2] at hunitn
+    have hin : Inert enR 100 [wordAt small (u / 100)] := fun t ht => Or.inl (hunitn t ht)
+    obtain ⟨r1, r2, _⟩ := round_words
+    by_cases hz : u % 100 = 0
+    · simp only [hz, if_true]
+      have hw : lookup enR (if ord then w_hundredth else w_hundred) = some 100 := by cases ord <;> simp [r1, r2]
+      have := good_step true _ enR [wordAt small (u / 100)] _ 100 (u / 100) [] 0 1 (good_nil _ _) (by omega) hw
+        (by simp) hin hunit
+      refine ⟨100, ?_, by omega, fun _ => rfl⟩
+      have e : 100 * (u / 100) + 0 = u := by omega
+      rw [e] at this
+      simpa using this
+    · simp only [hz, if_false]
+      have hr1 : 1 ≤ u % 100 := by omega
+      have hr2 : u % 100 < 100 := by omega
+      obtain ⟨_, hn⟩ := flat_facts ord v.andHundred (u % 100) hr1 hr2
+      have hg := good_flat (getIntValueF true enT enL (f + 1)) enR _ _ hn (flat_ne_nil _ _ _)
+        (rec_flat f ord v.andHundred (u % 100) hr1 hr2)
+      have := good_step true _ enR [wordAt small (u / 100)] w_hundred 100 (u / 100) _ _ 1 hg (by omega) r1
+        (by simp) hin hunit
+      refine ⟨100, ?_, by omega, fun _ => rfl⟩
+      have e : 100 * (u / 100) + u % 100 = u := by omega
+      rw [e] at this
+      simpa using this
+
+/-- a block below 1000 in front of a scale word: its value, it is not empty, and it holds no end word for `R > 100` -/
+theorem block_facts (f : Nat) (v : Variant) (g : Nat) (h1 : 1 ≤ g) (h2 : g < 1000) :
+    getIntValueF true enT enL (f + 2) (toks (sub1000 v false g)) = .ok g ∧ toks (sub1000 v false g) ≠ [] ∧
+      ∀ R, 100 < R → Inert enR R (toks (sub1000 v false g)) := by
+  obtain ⟨r1, _⟩ := round_words
+  refine ⟨?_, ?_, ?_⟩
+  · by_cases hu : g < 100
+    · rw [toks_sub1000 v false g h2]; simp only [hu, if_true]
+      exact rec_flat (f + 1) false false g h1 hu
+    · obtain ⟨e, hg, _, h100⟩ := good_sub1000 f v false false g h1 h2 (by simp)
+      simp only [Bool.false_eq_true, if_false, List.nil_append] at hg
+      have he : e = 100 := h100 (by omega)
+      refine eval_of_good enT enL (f + 1) _ g e hg ?_ (by omega)
+      rw [toks_sub1000 v false g h2]; simp only [hu, if_false]
+      split <;> simp
+  · rw [toks_sub1000 v false g h2]
+    split
+    · exact flat_ne_nil _ _ _
+    · split <;> simp
+  · intro R hR
+    rw [toks_sub1000 v false g h2]
+    have hunit : ∀ h, 1 ≤ h → h < 10 → lookup enR (wordAt small h) = none := by
+      intro h a b
+      have := (flat_facts false false h a (by omega)).2
+      rw [flat_unit h a b] at this
+      exact this _ (by simp)
+    split
+    · rename_i hu
+      exact fun t ht => Or.inl ((flat_facts false false g h1 hu).2 t ht)
+    · rename_i hu
+      have hh := hunit (g / 100) (by omega) (by omega)
+      split
+      · intro t ht
+        simp only [Bool.false_eq_true, if_false, List.mem_cons, List.not_mem_nil, or_false] at ht
+        rcases ht with e | e
+        · left; rw [e]; exact hh
+        · right; exact ⟨100, by rw [e]; exact r1, hR⟩
+      · intro t ht
+        simp only [List.mem_cons] at ht
+        rcases ht with e | e | e
+        · left; rw [e]; exact hh
+        · right; exact ⟨100, by rw [e]; exact r1, hR⟩
+        · left; exact (flat_facts false v.andHundred (g % 100) (by omega) (by omega)).2 t e
+
+/-- one group of three digits with its scale word in front of a good rest -/
+theorem good_group (f : Nat) (v : Variant) (g : Nat) (w : Str) (R : Nat) (rest : List Str) (n e : Nat)
+    (hg : Good true (getIntValueF true enT enL (f + 2)) enR rest n e) (he : e ≤ R) (hR : 100 < R)
+    (hw : lookup enR w = some R) (hg2 : g < 1000) :
+    ∃ e', Good true (getIntValueF true enT enL (f + 2)) enR (toks (group v g w) ++ rest) (R * g + n) e' ∧
+      e' ≤ R ∧ (g ≠ 0 → e' = R) ∧ (g = 0 → e' = e) := by
+  by_cases h0 : g = 0
+  · subst h0
+    exact ⟨e, by simpa [group, toks] using hg, he, by simp, fun _ => rfl⟩
+  · have hb : (g == 0) = false := by simp [h0]
+    obtain ⟨hval, hne, hin⟩ := block_facts f v g (by omega) hg2
+    have := good_step true _ enR _ w R g rest n e hg he hw hne (hin R hR) hval
+    refine ⟨R, ?_, Nat.le_refl _, fun _ => rfl, fun h => absurd h h0⟩
+    simpa [group, hb, toks_append, toks] using this
+
+theorem toks_pieces (v : Variant) (ord : Bool) (n : Nat) (h : n ≠ 0) :
+    toks (pieces v ord n) =
+      toks (group v (n / 1000000000000 % 1000) (if ord && n / 1000000000 % 1000 == 0 && n / 1000000 % 1000 == 0 &&
+          n / 1000 % 1000 == 0 && n % 1000 == 0 then w_trillionth else w_trillion)) ++
+      (toks (group v (n / 1000000000 % 1000) (if ord && n / 1000000 % 1000 == 0 && n / 1000 % 1000 == 0 &&
+          n % 1000 == 0 then w_billionth else w_billion)) ++
+      (toks (group v (n / 1000000 % 1000) (if ord && n / 1000 % 1000 == 0 && n % 1000 == 0 then w_millionth
+          else w_million)) ++
+      (toks (group v (n / 1000 % 1000) (if ord && n % 1000 == 0 then w_thousandth else w_thousand)) ++
+       toks (lastGroup v ord (decide (n ≥ 1000)) (n % 1000))))) := by
+  have : (n == 0) = false := by simp [h]
+  simp [pieces, this, toks_append]
 
 end RTV.Num
